@@ -11,6 +11,7 @@ from mc.lib import grid_pairs, make_biv
 PROPERTY = 'C07'
 LEVEL = 'exploration'
 ENGINE = 'E1-product-explorer'
+ENGINES = ('E1-product-explorer', 'E2-sequence-explorer')
 TECHNIQUE = ('bounded-exhaustive enumeration of family x theta x (u,v)-grid x batch-layout alphabet; oracle = '
              'mpmath derivatives of the generator construction plus quadrature of the real density over every '
              'cell of a partition of [1e-4,1-1e-4]^2')
@@ -40,6 +41,7 @@ def cases(tier, seed):
         for th in sorted(ths):
             out.append((fam, th, tier, 'points'))
             out.append((fam, th, tier, 'integrals'))
+        out.append((fam, 0.0, tier, 'history'))
     return out
 
 
@@ -67,10 +69,18 @@ def run_case(case):
     from mc.ref.archimedean import Ref
     fam, th, tier, part = case
     r = engine.new_result()
-    cop = make_biv(fam, th)
-    ref = Ref(fam, th)
     sig = f'C07:{fam}'
     g = list(A.tier_grid(tier))
+    if part != 'history':
+        cop = make_biv(fam, th)
+        ref = Ref(fam, th)
+    if part == 'history':
+        from mc.lib import history_walk
+        history_walk(r, fam, sorted(A.THETAS[tier][fam]),
+                     ['partial_derivative', 'probability_density', 'log_probability_density'], grid_pairs(g, g),
+                     sig, case)
+        r.outcome(f'{fam}:history')
+        return r
     if part == 'integrals':
         return _integrals(r, cop, ref, fam, th, tier, sig, case)
 
@@ -201,3 +211,4 @@ def finish(agg, tier):
     for fam in ('clayton', 'gumbel', 'frank'):
         engine.require(agg['hits'].get(f'family:{fam}', 0) >= 6, f'family {fam} under-explored')
     engine.require(agg['hits'].get('integral-cases', 0) >= 20, 'integral cases missing')
+    engine.require(agg['hits'].get('history-cases', 0) == 3, 'history cases missing')
